@@ -127,7 +127,7 @@ impl Prop for C07 {
     fn meta() -> Meta {
         Meta {
             level: "fault_enumeration",
-            rule: "Programs from the C03 grammar plus INPUT and STOP, with a reply script. Baseline: RUN to completion, STOPs answered by CONT at once. Perturbed: identical, but at a set K of turn boundaries (running or awaiting input) the host breaks in, issues 0-3 inspection lines that assign nothing (PRINT of scalars / existing cells / defined functions / RND(0), LIST; a share fail: 1/0, string arithmetic, bad subscript of an existing array, a function whose body fails, a function that overflows the frame cap, a call with an ill-typed argument, a syntax error, DIM of an existing array, DEF FN at the prompt, NEXT of a variable no program uses, immediate lines of several statements) and then CONT. Mode AllSingletons places the break at EVERY boundary of the run in turn (single-fault exhaustive for that program, up to 400 boundaries; half of the programs in thorough, 1 in 6 in quick); mode AllSubsets enumerates ALL 2^n - 1 non-empty break sets of runs with n <= 10 boundaries (multi-fault exhaustive for that program); mode Breaks samples subsets of size 1-6 of longer runs; mode AssignAtStop compares `v = e` + CONT at each STOP with the program that has the assignment in place of STOP. Oracle: observable streams (prints, request positions, REENTER/EXTRA IGNORED, STOP notices, final error kind+line) equal record for record, final probe snapshot equal. distinct_nontrivial = distinct (program, break set, inspections) hashes among perturbed runs in which >= 1 break fired and the program ran >= 5 boundaries.",
+            rule: "Programs from the C03 grammar plus INPUT and STOP, with a reply script. Baseline: RUN to completion, STOPs answered by CONT at once. Perturbed: identical, but at a set K of turn boundaries (running or awaiting input) the host breaks in, issues 0-3 inspection lines that assign nothing (PRINT of scalars / existing cells / defined functions / RND(0), LIST; a share fail: 1/0, string arithmetic, bad subscript of an existing array, a function whose body fails, a function that overflows the frame cap, a call with an ill-typed argument, a syntax error, DIM of an existing array, DEF FN at the prompt, NEXT of a variable no program uses, immediate lines of several statements, ill-typed scalar and cell assignments) and then CONT. Mode AllSingletons places the break at EVERY boundary of the run in turn (single-fault exhaustive for that program, up to 400 boundaries; half of the programs in thorough, 1 in 6 in quick); mode AllSubsets enumerates ALL 2^n - 1 non-empty break sets of runs with n <= 10 boundaries (multi-fault exhaustive for that program); mode Breaks samples subsets of size 1-6 of longer runs; mode AssignAtStop compares `v = e` + CONT at each STOP with the program that has the assignment in place of STOP. Oracle: observable streams (prints, request positions, REENTER/EXTRA IGNORED, STOP notices, final error kind+line) equal record for record, final probe snapshot equal. distinct_nontrivial = distinct (program, break set, inspections) hashes among perturbed runs in which >= 1 break fired and the program ran >= 5 boundaries.",
             real: &["abasic-core Interpreter (break_at_current_location, CONT, immediate lines at a breakpoint, frame handling of failed calls)"],
             stub: &["the host (break timing, inspection lines, replies)"],
             assumptions: &[
